@@ -275,6 +275,34 @@ func (s *State) moveElems(dst, src Ptr, elem types.Type, n *Term) {
 		return
 	}
 	es := byteSize(elem)
+	if dst.SOff != nil || src.SOff != nil || dst.Obj.Arr != nil || src.Obj.Arr != nil || !isConst(dst.Obj.Len) || !isConst(src.Obj.Len) {
+		// array mode: SMT arrays are total, so the guarded accesses beyond the count need no
+		// bounds reasoning (the slice operations that produced dst and src were bounds-checked)
+		s.access(src, false)
+		s.access(dst, true)
+		src.Obj.toArray(s)
+		dst.Obj.toArray(s)
+		nb := ub * es
+		sidx := Const(64, uint64(src.Off))
+		if src.SOff != nil {
+			sidx = Add(sidx, src.SOff)
+		}
+		didx := Const(64, uint64(dst.Off))
+		if dst.SOff != nil {
+			didx = Add(didx, dst.SOff)
+		}
+		nbytes := Mul(n, Const(64, uint64(es)))
+		vals := make([]*Term, nb)
+		for i := 0; i < nb; i++ {
+			vals[i] = Select(src.Obj.Arr, Add(sidx, Const(64, uint64(i))))
+		}
+		for i := 0; i < nb; i++ {
+			di := Add(didx, Const(64, uint64(i)))
+			in := Ult(Const(64, uint64(i)), nbytes)
+			dst.Obj.Arr = Store(dst.Obj.Arr, di, Ite(in, vals[i], Select(dst.Obj.Arr, di)))
+		}
+		return
+	}
 	olds := make([]*Term, ub)
 	news := make([]*Term, ub)
 	for i := 0; i < ub; i++ {
@@ -291,6 +319,8 @@ func (s *State) moveElems(dst, src Ptr, elem types.Type, n *Term) {
 		s.guardedStore(d, es, in, Ite(in, news[i], olds[i]))
 	}
 }
+
+func isConst(t *Term) bool { return t.Op == OConst }
 
 // guardedLoad reads n bytes at p if the access is inside the object, else returns 0; the guard
 // states when the value is actually needed.
